@@ -32,8 +32,12 @@ type Caps struct {
 	// answer the other queries that have a negative form negatively instead of
 	// staying silent: XTSMGRAPHICS with an error status, XTGETTCAP with 0+r.
 	DECRPMAbsent int
-	OSC52        bool
-	Clipboard    string
+	// TcapNoValue: a positive XTGETTCAP reply carries the capability name
+	// only (DCS 1 + r <name> ST), the form terminals use for boolean
+	// capabilities, instead of <name>=<value>
+	TcapNoValue bool
+	OSC52       bool
+	Clipboard   string
 	// ColorDigits: hex digits per channel in colour replies; 0 or 4 = the
 	// usual doubled form (rgb:1a1a/2b2b/3c3c), 2 = rgb:1a/2b/3c (X11 allows 1-4)
 	ColorDigits int
